@@ -58,28 +58,31 @@ class DataFrameModel(_DataFrameModel[pl.LazyFrame, DataFrameSchema]):
             except TypeError:
                 is_polars_dtype = False
 
-            try:
-                engine_dtype = pe.Engine.dtype(annotation.raw_annotation)
-                if is_polars_dtype:
-                    # use the raw annotation as the dtype if it's a native
-                    # pandera polars datatype
-                    dtype = annotation.raw_annotation
-                else:
-                    dtype = engine_dtype.type
-            except (TypeError, ValueError) as exc:
-                if annotation.metadata:
-                    if field.dtype_kwargs:
-                        raise TypeError(
-                            "Cannot specify redundant 'dtype_kwargs' "
-                            + f"for {annotation.raw_annotation}."
-                            + "\n Usage Tip: Drop 'typing.Annotated'."
-                        ) from exc
-                    dtype_kwargs = get_dtype_kwargs(annotation)
-                    dtype = annotation.arg(**dtype_kwargs)  # type: ignore
-                elif annotation.default_dtype:
-                    dtype = annotation.default_dtype
-                else:
-                    dtype = annotation.arg  # type: ignore
+            if annotation.metadata:
+                # the parameters of ``Annotated[dtype, *params]`` must not be
+                # dropped by resolving the annotation through its origin
+                if field.dtype_kwargs:
+                    raise TypeError(
+                        "Cannot specify redundant 'dtype_kwargs' "
+                        + f"for {annotation.raw_annotation}."
+                        + "\n Usage Tip: Drop 'typing.Annotated'."
+                    )
+                dtype_kwargs = get_dtype_kwargs(annotation)
+                dtype = annotation.arg(**dtype_kwargs)  # type: ignore
+            else:
+                try:
+                    engine_dtype = pe.Engine.dtype(annotation.raw_annotation)
+                    if is_polars_dtype:
+                        # use the raw annotation as the dtype if it's a native
+                        # pandera polars datatype
+                        dtype = annotation.raw_annotation
+                    else:
+                        dtype = engine_dtype.type
+                except (TypeError, ValueError):
+                    if annotation.default_dtype:
+                        dtype = annotation.default_dtype
+                    else:
+                        dtype = annotation.arg  # type: ignore
 
             if (
                 annotation.origin is None
